@@ -762,6 +762,43 @@ Proof.
   pose proof (NoDup_incl_length Hnd' Hincl) as K. rewrite seq_length in K. exact K.
 Qed.
 
+Lemma InvQ_quiescent g a tr :
+  InvQ g a tr ->
+  exists Sabs st0,
+    lp_run lp_init (c_atr a) = Some (Sabs, st0) /\ erase (c_atr a) = upd_hist tr /\
+    (quiescent_hist (upd_hist tr) ->
+       (forall t, st0 t = @Idle SetSpec) /\
+       (forall k, zmem k Sabs = true <-> In k (lazy_keys g))).
+Proof.
+  intros ((L & HS & [(Sabs & st0 & H1 & H2 & H3) H4]) & Hj & Hq).
+  exists Sabs, st0. split; [exact H1|]. split; [exact H4|].
+  intros Hquiet.
+  assert (Hidle : forall t, st0 t = @Idle SetSpec).
+  { intros t. apply (lp_idle _ _ _ H1). rewrite H4. apply Hquiet. }
+  split; [exact Hidle|].
+  assert (Hhole : forall t, lv_hole (view (c_base a) t) = None).
+  { intros t. destruct (lv_hole (view (c_base a) t)) eqn:E; auto. exfalso.
+    apply (Hq t); [unfold view3; cbn [fst]; congruence|]. unfold view3; cbn [snd]. rewrite <- H2. apply Hidle. }
+  assert (Hsucc : forall x, a_succ (c_base a) x = None).
+  { intros x. destruct (a_succ (c_base a) x) as [s|] eqn:E; auto.
+    destruct (s_succ _ _ _ HS x s E) as (_ & _ & t & p & K). rewrite Hhole in K. discriminate. }
+  destruct (s_chain _ _ _ HS) as [Hl Hs].
+  pose proof (chain_nodup _ _ _ _ _ (s_chain _ _ _ HS)) as Hnd.
+  assert (Hum : forall x, In x L -> nmark (heap g x) = false).
+  { intros x Hx. destruct (nmark (heap g x)) eqn:Em; auto. exfalso.
+    assert (Hgx : gnext g (a_succ (c_base a)) x = HEAD) by (unfold gnext; rewrite Hsucc; apply Hj; exact Em).
+    destruct (glinked_next_in _ _ _ _ _ Hl Hx) as [K|K]; rewrite Hgx in K.
+    - inversion Hnd; subst. apply H5. apply in_or_app. left. exact K.
+    - unfold HEAD, TAIL in K. discriminate. }
+  destruct (s_ends _ _ _ HS) as (Eh & _).
+  assert (Hwalk : lazy_walk g (Datatypes.S (nalloc g)) (nnext (heap g HEAD)) = L).
+  { rewrite <- (gnext_unmarked _ _ _ _ HS Eh). apply (walk_all g (c_base a) L HS Hum L HEAD); auto.
+    pose proof (chain_length _ _ _ HS). lia. }
+  intros k. rewrite (H3 k). unfold lazy_keys. rewrite Hwalk, in_map_iff. split.
+  - intros (n & K1 & K2 & K3). exists n. auto.
+  - intros (n & K1 & K2). exists n. auto.
+Qed.
+
 Theorem lazy_quiescent fuel sf ic ths c :
   Conc.reach (init_cfg fuel sf ic ths) c ->
   exists atr Sabs st0,
@@ -772,34 +809,7 @@ Theorem lazy_quiescent fuel sf ic ths c :
        (forall k, zmem k Sabs = true <-> In k (lazy_keys (Conc.shared c)))).
 Proof.
   intros Hr. pose proof (lazy_sorted_nodup fuel sf ic ths c Hr) as Hinc.
-  destruct (Conc.reach_Inv (init_okQ fuel sf ic ths) Hr) as (a & (L & HS & [(Sabs & st0 & H1 & H2 & H3) H4]) & Hj & Hq).
-  set (g := Conc.shared c) in *.
-  exists (c_atr a), Sabs, st0. split; [exact H1|]. split; [exact H4|]. split; [exact Hinc|].
-  intros Hquiet.
-  assert (Hidle : forall t, st0 t = @Idle SetSpec).
-  { intros t. apply (lp_idle _ _ _ H1). rewrite H4. apply Hquiet. }
-  split; [exact Hidle|].
-  (* no view has a hole, no node has a ghost successor *)
-  assert (Hhole : forall t, lv_hole (view (c_base a) t) = None).
-  { intros t. destruct (lv_hole (view (c_base a) t)) eqn:E; auto. exfalso.
-    apply (Hq t); [unfold view3; cbn [fst]; congruence|]. unfold view3; cbn [snd]. rewrite <- H2. apply Hidle. }
-  assert (Hsucc : forall x, a_succ (c_base a) x = None).
-  { intros x. destruct (a_succ (c_base a) x) as [s|] eqn:E; auto.
-    destruct (s_succ _ _ _ HS x s E) as (_ & _ & t & p & K). rewrite Hhole in K. discriminate. }
-  destruct (s_chain _ _ _ HS) as [Hl Hs].
-  pose proof (chain_nodup _ _ _ _ _ (s_chain _ _ _ HS)) as Hnd.
-  (* hence no node of the chain is marked *)
-  assert (Hum : forall x, In x L -> nmark (heap g x) = false).
-  { intros x Hx. destruct (nmark (heap g x)) eqn:Em; auto. exfalso.
-    assert (Hgx : gnext g (a_succ (c_base a)) x = HEAD) by (unfold gnext; rewrite Hsucc; apply Hj; exact Em).
-    destruct (glinked_next_in _ _ _ _ _ Hl Hx) as [K|K]; rewrite Hgx in K.
-    - inversion Hnd; subst. apply H5. apply in_or_app. left. exact K.
-    - unfold HEAD, TAIL in K. discriminate. }
-  destruct (s_ends _ _ _ HS) as (Eh & _).
-  assert (Hwalk : lazy_walk g (S (nalloc g)) (nnext (heap g HEAD)) = L).
-  { rewrite <- (gnext_unmarked _ _ _ _ HS Eh). apply (walk_all g (c_base a) L HS Hum L HEAD); auto.
-    pose proof (chain_length _ _ _ HS). lia. }
-  intros k. rewrite (H3 k). unfold lazy_keys. fold g. rewrite Hwalk, in_map_iff. split.
-  - intros (n & K1 & K2 & K3). exists n. auto.
-  - intros (n & K1 & K2). exists n. auto.
+  destruct (Conc.reach_Inv (init_okQ fuel sf ic ths) Hr) as (a & HI).
+  destruct (InvQ_quiescent _ _ _ HI) as (Sabs & st0 & H1 & H2 & H3).
+  exists (c_atr a), Sabs, st0. auto.
 Qed.
